@@ -252,6 +252,16 @@ struct CapVisitor<'c, 'a> {
 }
 
 impl<'c, 'a> CapVisitor<'c, 'a> {
+	/// the capture configuration asks for an integer target and `v` fits its type
+	fn int_hint_fits(&self, v: i128) -> bool {
+		match self.cap.ctx.cfg.decimal_hint {
+			1 => i64::try_from(v).is_ok(),
+			2 => u64::try_from(v).is_ok(),
+			3 => true,
+			4 => v >= 0,
+			_ => false,
+		}
+	}
 	fn integer<E: de::Error>(&self, v: i128) -> Result<MValue, E> {
 		self.cap.ctx.stats.borrow_mut().events += 1;
 		match &self.k {
@@ -286,7 +296,13 @@ impl<'c, 'a> CapVisitor<'c, 'a> {
 					return Err(E::custom(format!("capture: decimal {v:?} has more fractional digits than the schema scale {scale}")));
 				}
 				let p = 10i128.checked_pow(*scale - s).ok_or_else(|| E::custom("capture: scale overflow"))?;
-				Ok(MValue::Decimal(u.checked_mul(p).ok_or_else(|| E::custom("capture: decimal overflow"))?))
+				let unscaled = u.checked_mul(p).ok_or_else(|| E::custom("capture: decimal overflow"))?;
+				// a real integer target (i64/u64/i128/u128) only accepts an integer delivery: for a
+				// scale-0 decimal whose value fits the hinted type a string means the target fails
+				if *scale == 0 && self.int_hint_fits(unscaled) {
+					return Err(E::custom(format!("capture: decimal {v:?} (scale 0) delivered as a string to an integer target that can hold it (hint {})", self.cap.ctx.cfg.decimal_hint)));
+				}
+				Ok(MValue::Decimal(unscaled))
 			}
 			Kind::BigDecimal => {
 				let (u, s) = parse_decimal_str(v).ok_or_else(|| E::custom(format!("capture: unparsable decimal {v:?}")))?;
